@@ -4,6 +4,7 @@ import BqVerif.Proofs.CircIter
 import BqVerif.Proofs.CircQudit
 import BqVerif.Proofs.CircViews
 import BqVerif.Proofs.CircKahn2
+import BqVerif.Proofs.CircPopQudit
 /-! # C05 — all views of a Circuit stay mutually consistent after every edit
 
 The views (`next/prev/front/rear/first_on/last_on`, counters, iteration) are *functions of the
@@ -169,5 +170,26 @@ example :
 example :
     let c : Circ := ⟨[2], [[⟨1, [], [0], [2]⟩, ⟨2, [], [0], [2]⟩]]⟩
     c.invB = false ∧ c.iterKahn ≠ c.iterCyc := by decide
+
+/-- **pop_qudit keeps the invariant**, for any index (incl. negative / out of range, where it
+raises and leaves the circuit alone): the `batch_pop` of all points on the qudit leaves no
+operation on it (`batchPop_ptsQ_clears`: the removal fold walks the found operations from the last
+cycle to the first, so no index is shifted before it is used), and the relabelling `q ↦ q − 1`
+above the popped qudit is injective on the qudits still in use. -/
+theorem C05_inv_pop_qudit (c : Circ) (qi : Int) (hinv : c.Inv) : (c.popQudit qi).1.Inv :=
+  popQudit_inv c qi hinv
+
+/-- the intermediate fact: after `pop_qudit`'s batch pop nothing sits on the qudit -/
+theorem C05_pop_qudit_clears (c : Circ) (hinv : c.Inv) (k : Nat) (hk : k < c.numQudits)
+    (hne : (ptsQ c k).isEmpty = false) :
+    ∀ cy ∈ (c.batchPop (ptsQ c k)).1.cycles, occ cy k = false :=
+  batchPop_ptsQ_clears c hinv k hk hne
+
+-- non-vacuity: popping qudit 1 of X@0 ; CNOT@(0,1) ; H@1 ; CNOT@(2,1)
+example :
+    let c : Circ := ⟨[2, 2, 2], [[⟨1, [], [0], [2]⟩], [⟨6, [], [0, 1], [2, 2]⟩], [⟨2, [], [1], [2]⟩],
+      [⟨6, [], [2, 1], [2, 2]⟩]]⟩
+    c.invB = true ∧ (ptsQ c 1).isEmpty = false ∧
+      (c.popQudit (-2)).1 = ⟨[2, 2], [[⟨1, [], [0], [2]⟩]]⟩ := by decide
 
 end BqVerif.C05
